@@ -209,6 +209,12 @@ def jobs(tier):
             js.append((h_localindex, (w, n, L), 900))
             js.append((h_flatten_nextcarry, (w, n), 600))
             js.append((h_num_roundtrip, (w, n, L), 600))
+        # kernels whose loops do not depend on the list lengths: lengths up to the width of the index type
+        for n in (1, 2):
+            js.append((h_num, (w, n, 2 ** 40), 600))
+            js.append((h_num_roundtrip, (w, n, 2 ** 40), 600))
+            js.append((h_none2empty, (w, n, 2, 2 ** 40), 900))
+            js.append((h_flatten_offsets, (w, n, 2, 2 ** 40), 900))
         for n in range(1, N):
             for m in range(0, N):
                 js.append((h_flatten_offsets, (w, n, m, L), 900))
